@@ -40,7 +40,7 @@ ASSUMPTIONS = [
     "TableReader files are well-formed numeric rows (two or more columns); malformed rows are outside the statement",
 ]
 REQUIRED = {"stratum:table": 60, "stratum:reader": 60, "stratum:plot": 40, "reader:no_final_newline": 15,
-            "reader:unsorted": 15, "reader:x_scaled": 20, "table:x_scaled": 8, "reader:inside_node_inside": 10, "reader:other_interval_then_node_then_inside": 15, "reader:comments": 15, "table:xy": 15, "table:x_y": 15, "table:potable": 20}
+            "reader:unsorted": 15, "reader:x_scaled": 20, "table:x_scaled": 8, "reader:inside_node_inside": 10, "reader:other_interval_then_node_then_inside": 15, "reader:comments": 15, "table:xy": 15, "table:y_before_x": 4, "table:x_y": 15, "table:potable": 20}
 
 
 @st.composite
@@ -133,7 +133,7 @@ def budget(tier):
 def _check_table(case):
     t = case["table"]
     xs, ys = t["x"], t["y"]
-    v, cls = [], ["stratum:table", "table:" + ("x_y" if t["style"] == "x_y" else "xy")]
+    v, cls = [], ["stratum:table", "table:" + ("x_y" if t["style"] in ("x_y", "y_x") else "xy")] + (["table:y_before_x"] if t["style"] == "y_x" else [])
     xs_ = 10.0 ** case.get("xexp", 0)
     if case.get("xexp"):
         cls.append("table:x_scaled")
@@ -144,7 +144,7 @@ def _check_table(case):
     if case["potable"]:
         cls.append("table:potable")
         pd = {"ranges": [{"m": ">", "s": -1000, "body": {"k": "table", "name": t["name"]}}]}
-        alt = dict(t, style="x_y" if t["style"] != "x_y" else "xy_cont", name="tabalt")
+        alt = dict(t, style=("y_x" if len(t["x"]) % 2 else "x_y") if t["style"] not in ("x_y", "y_x") else "xy_cont", name="tabalt")
         pd2 = {"ranges": [{"m": ">", "s": -1000, "body": {"k": "table", "name": "tabalt"}}]}
         m = {"tabulation": {"target": "LAMMPS", "nr": 5, "cutoff": 2.0}, "env": {"custom": [], "table": [t, alt]},
              "pair": [("A", "B", pd), ("A", "A", pd2)]}
